@@ -112,6 +112,10 @@ class Interp:
                     t = b.blocks[y]["term"]
                     if t["k"] == "call" and any(a.get("k") in ("copy", "move") and not a.get("p") and a["l"] == cl for a in t["args"]):
                         use = (y, t)
+                if use is None and cdef in (b.j.get("inlined_closures") or []):
+                    # the closure's body was written out where it is applied (normalised traversal / combinator): its
+                    # evaluations are already among the arm's own
+                    continue
                 mapping = {}
                 for i, ops in enumerate(caps):
                     mapping[("field", ("closure_env",), str(i))] = next(iter(ops)) if len(ops) == 1 else ("oneof", ops)
